@@ -413,7 +413,7 @@ def run_case(case, acc):
 
 
 def plan(tier, seed):
-    n = 16000 if tier == "quick" else 2_000_000
+    n = 40000 if tier == "quick" else 2_000_000
     shards = [dict(kind="flagwords")]
     for s, c in harness.split_range(n, 16 if tier == "quick" else 48):
         shards.append(dict(kind="gen", seed=seed, start=s, count=c))
